@@ -34,6 +34,18 @@ func (ex *Exec) globalLoc(v *types.Var, st *State) *Loc {
 	}
 	// evaluate initialiser concretely in an empty context
 	ex.withGlobalFrame(gi.Pkg.PkgPath, func(gst *State) {
+		// an initialiser outside the supported subset leaves an opaque value (the variable can be
+		// mentioned but nothing is known about it); init *functions* are not given this latitude
+		defer func() {
+			if r := recover(); r != nil {
+				if u, ok := r.(*unsupportedErr); ok {
+					ex.assumptions["package-level variable "+v.Pkg().Name()+"."+v.Name()+" has an initialiser outside the supported subset ("+u.msg+"): its value is opaque"] = true
+					ex.base[l] = &OpaqueV{What: v.Pkg().Path() + "." + v.Name(), IsNil: ex.ts.False()}
+					return
+				}
+				panic(r)
+			}
+		}()
 		if len(gi.Spec.Values) == 0 {
 			ex.base[l] = ex.zeroValue(v.Type())
 		} else if len(gi.Spec.Values) == len(gi.Spec.Names) {
@@ -64,7 +76,9 @@ func (ex *Exec) withGlobalFrame(pkgPath string, fn func(st *State)) {
 	ex.suppress++ // initialisers are checked by running the real program; no obligations here
 	gst := &State{pc: ex.ts.True(), store: map[*Loc]Value{}}
 	ex.pushScope()
+	ex.inGlobalInit++
 	fn(gst)
+	ex.inGlobalInit--
 	ex.suppress = saveSup
 	ex.frames = saveFrames
 }
@@ -307,6 +321,12 @@ func (ex *Exec) callExternal(f *FuncV, args []Value, st *State, site *ast.CallEx
 	}
 	if v, ok := ex.callExternalMore(name, f, args, st, site); ok {
 		return v
+	}
+	if ex.inGlobalInit > 0 {
+		// initialiser of a package-level variable calling into a dependency: the variable holds an
+		// opaque value (reads of it yield nothing that can be reasoned about)
+		ex.assumptions["package-level variables initialised by calls into dependencies hold opaque values ("+name+")"] = true
+		return &OpaqueV{What: name, IsNil: ex.ts.False()}
 	}
 	unsupported("call of unmodelled function %s at %s", name, ex.pos(site.Pos()))
 	return nil
